@@ -574,6 +574,7 @@ def worker(f):
 
     @functools.wraps(f)
     async def wrapper(cls, connection, rest):
+        task = get_current_task()
         try:
             await f(cls, connection, rest)
         except asyncio.CancelledError:
@@ -586,12 +587,12 @@ def worker(f):
         except errors.PathIOError:
             # the file system failed while the worker was winding up after
             # abor (closing its file): abor is answered all the same
-            if get_current_task() not in connection.aborting:
+            if task not in connection.aborting:
                 raise
             connection.response("451", "file system error")
             connection.response("226", "abort successful")
         finally:
-            connection.aborting.discard(get_current_task())
+            connection.aborting.discard(task)
 
     return wrapper
 
